@@ -250,6 +250,26 @@ Section World.
 
   Definition is_exec (x : step) : bool := match x with Exec _ => true | _ => false end.
 
+  (* histories in which the files have other writers too: another profiler object of the
+     same process, another process, a forked child, a tool that replaces or deletes the
+     file.  From this profiler's point of view all of them are foreign writes. *)
+  Inductive hstep :=
+  | Own (x : step)
+  | Foreign (f : Z) (c : content)
+  | Delete (f : Z).
+
+  Definition delete_file (f : Z) (w : world) : world :=
+    World (prof w) (filter (fun fc => negb (fst fc =? f)) (fs w)) (out w).
+
+  Definition do_hstep (h : hstep) (w : world) : world :=
+    match h with
+    | Own x => do_step x w
+    | Foreign f c => write_file f c w
+    | Delete f => delete_file f w
+    end.
+
+  Definition hrun (hs : list hstep) (w : world) : world := fold_left (fun w h => do_hstep h w) hs w.
+
   (* every text visible in a world: stdout and text files *)
   Definition out_texts (w : world) : list text :=
     flat_map (fun i => match i with OutText t => [t] | _ => [] end) (out w).
@@ -273,3 +293,6 @@ Arguments Dump {st} file.
 Arguments Kernprof {st} outfile view u z r.
 Arguments View {st} file u z r t m.
 Arguments Explicit {st} wc sc f_txt f_ts f_lprof.
+Arguments Own {text bytes st} x.
+Arguments Foreign {text bytes st} f c.
+Arguments Delete {text bytes st} f.
